@@ -25,6 +25,9 @@ pub enum Case {
     /// public keys G, 2G, -G and the point with x = 0 - in particular pairs whose DH result has x = 0 or is +-G.
     /// RFC 9180 defines an ordinary shared secret for all of them.
     Special { kem: Kem, sk_idx: usize, pk_idx: usize, auth: bool },
+    /// X25519 Decap / AuthDecap of a NON-canonical encapsulated key (u + p for u < 19, and / or bit 255 set): RFC 7748 accepts
+    /// it, the DH uses the point, and kem_context contains the bytes exactly as they arrived
+    NonCanonEnc { idx: usize, auth: bool },
 }
 
 pub struct C03 {
@@ -141,6 +144,11 @@ impl Part for C03 {
                 f += 50;
             }
         }
+        for idx in 0..8 {
+            for auth in [false, true] {
+                v.push(Case::NonCanonEnc { idx, auth });
+            }
+        }
         v.push(Case::DeriveHex { kem: Kem::P256, ikm: P256_RETRY_WITNESS.into() });
         v.push(Case::DeriveHex { kem: Kem::P256, ikm: P256_RETRY_WITNESS_32.into() });
         v.push(Case::GenHex { kem: Kem::P256, script: P256_RETRY_WITNESS_32.into() });
@@ -243,6 +251,45 @@ impl Part for C03 {
                         }
                         o => out.fail(format!("gen_keypair: {}", o.class())),
                     }
+                }
+            }
+            Case::NonCanonEnc { idx, auth } => {
+                out.outcome = "x25519-non-canonical-enc".into();
+                let kem = Kem::X25519;
+                let ops = kem_ops(kem);
+                let k = keys(kem, 3950 + *idx as u64, cfg.seed);
+                // p = 2^255 - 19 little-endian: ed ff .. ff 7f ; u + p for u = 9, 2, 18 ; and canonical values with bit 255 set
+                let mut enc = [0xffu8; 32];
+                enc[31] = 0x7f;
+                match idx {
+                    0 => enc[0] = 0xed + 9,
+                    1 => enc[0] = 0xed + 2,
+                    2 => enc[0] = 0xed + 18,
+                    3 => {
+                        enc[0] = 0xed + 9;
+                        enc[31] = 0xff;
+                    }
+                    4 => {
+                        enc = [0u8; 32];
+                        enc[0] = 9;
+                        enc[31] = 0x80;
+                    }
+                    _ => {
+                        // an honest encapsulated key with bit 255 set
+                        let (sk_e, _, _) = kem.derive_keypair(&k.ikm_e);
+                        enc.copy_from_slice(&kem.pk_of(&sk_e).unwrap());
+                        enc[31] |= 0x80;
+                        enc[0] ^= (*idx as u8) << 1;
+                    }
+                }
+                let want = kem.decap(&enc, &k.sk_r, if *auth { Some(&k.pk_s) } else { None });
+                let got = ops.decap(&k.sk_r, if *auth { Some(&k.pk_s) } else { None }, &enc);
+                out.transitions += 1;
+                out.nontrivial = true;
+                match (&got, &want) {
+                    (Obs::Ok(g), Some(w)) if g == w => {}
+                    (Obs::Err(_), None) => {}
+                    (g, w) => out.fail(format!("X25519 decap(enc = {} (non-canonical), auth {}): got {} want {}", hex(&enc), auth, g.class(), w.as_ref().map(|x| hex(x)).unwrap_or("failure".into()))),
                 }
             }
             Case::Special { kem, sk_idx, pk_idx, auth } => {
